@@ -345,9 +345,9 @@ def total (s : State) : List Ctx := pendingNF s.items ++ succeeded s.log ++ s.sk
 theorem safe_eq (s : State) (c : Ctx) : safe s c = covered c (total s) := rfl
 
 /-- One step of the repaired code keeps every tracked context covered. -/
-theorem step_covers (version : Nat → Nat) (backoff : Nat → Nat → Nat) (s : State) (ev : Ev)
+theorem step_covers (cfg : Cfg) (hst : StopsOnAfChange cfg.stopOf) (s : State) (ev : Ev)
     (nd : (s.items.map (·.id)).Nodup) :
-    ∀ x ∈ total s, covered x (total (step (repaired version backoff) s ev)) = true := by
+    ∀ x ∈ total s, covered x (total (step cfg s ev)) = true := by
   intro x hx
   cases ev with
   | append a =>
@@ -378,14 +378,11 @@ theorem step_covers (version : Nat → Nat) (backoff : Nat → Nat → Nat) (s :
           simp only [Bool.or_eq_true, bne_iff_ne, ne_eq, Bool.not_eq_true', not_or, Decidable.not_not,
             Bool.not_eq_false] at hty
           exact hty
-        obtain ⟨cfg, hcfg⟩ : ∃ cfg, cfg = repaired version backoff := ⟨_, rfl⟩
-        rw [← hcfg, step_run_head cfg s t rest ok rnd hi hty'.1 hty'.2 nd]
+        rw [step_run_head cfg s t rest ok rnd hi hty'.1 hty'.2 nd]
         -- shape of the old waiting list
-        have hstop : cfg.stopOf t = stopOnAllowFailureChange t := by rw [hcfg]; rfl
         have hsplit : rest = merged t (cfg.stopOf t) rest ++ rest.dropWhile (combinable t (cfg.stopOf t)) := by
           simp [merged]
-        have hmaf := merged_same_af t rest
-        rw [← hstop] at hmaf
+        have hmaf := merged_same_af cfg.stopOf hst t rest
         simp only [total, hi, pendingNF_cons, List.mem_append] at hx
         by_cases hc : combines cfg t rest = true
         · -- followers are merged into the head
@@ -518,22 +515,30 @@ theorem step_nodup (cfg : Cfg) (s : State) (ev : Ev) (nd : (s.items.map (·.id))
         · rw [List.map_cons, List.nodup_cons] at h1
           exact h1.2
 
-/-- **C04.5 `no_discard`** (repaired code): along every event sequence — arrivals with new ids,
+/-- **C04.5 `no_discard`** (for every stop-combine predicate that stops at a differing
+`AllowFailure` — the repaired code's, and any stricter one): along every event sequence — arrivals with new ids,
 failing and succeeding runs in any pattern — a binding context that is tracked (it waits in a task
 that does not allow failure, or was executed successfully, or is not to be run by configuration)
 stays tracked: it is never discarded after a failed run. Grouped contexts are tracked up to group
 compaction (`covered`: a context of the same group survives). -/
-theorem no_discard (version : Nat → Nat) (backoff : Nat → Nat → Nat) (evs : List Ev) :
-    ∀ (s : State), (s.items.map (·.id)).Nodup → AppendsFresh (repaired version backoff) s evs →
-      ∀ c, safe s c = true → safe (run (repaired version backoff) s evs) c = true := by
+theorem no_discard_of (cfg : Cfg) (hst : StopsOnAfChange cfg.stopOf) (evs : List Ev) :
+    ∀ (s : State), (s.items.map (·.id)).Nodup → AppendsFresh cfg s evs →
+      ∀ c, safe s c = true → safe (run cfg s evs) c = true := by
   induction evs with
   | nil => intro s _ _ c h; exact h
   | cons e evs ih =>
     intro s nd hf c h
-    have hstep : safe (step (repaired version backoff) s e) c = true := by
+    have hstep : safe (step cfg s e) c = true := by
       rw [safe_eq] at h ⊢
-      exact covered_trans h (step_covers version backoff s e nd)
+      exact covered_trans h (step_covers cfg hst s e nd)
     exact ih _ (step_nodup _ s e nd hf.1) hf.2 c hstep
+
+/-- `no_discard` for the code in the repository (`taskHandleHookRun` passes
+`stopCombineFn = AllowFailure differs`). -/
+theorem no_discard (version : Nat → Nat) (backoff : Nat → Nat → Nat) (evs : List Ev) (s : State)
+    (nd : (s.items.map (·.id)).Nodup) (hf : AppendsFresh (repaired version backoff) s evs) :
+    ∀ c, safe s c = true → safe (run (repaired version backoff) s evs) c = true :=
+  no_discard_of (repaired version backoff) stopsOnAfChange_repaired evs s nd hf
 
 /-- Every context of an arriving task that does not allow failure is tracked from its arrival. -/
 theorem arrival_is_tracked (cfg : Cfg) (s : State) (t : Task) (h : t.allowFailure = false) :
@@ -557,7 +562,7 @@ theorem failed_run_discards_nothing (version : Nat → Nat) (backoff : Nat → N
   have hmem : c ∈ total s := by
     simp only [total, hlog, hsk, List.append_nil, pendingNF, List.mem_flatMap, List.mem_filter]
     exact ⟨b, ⟨hb, by simp [haf]⟩, hc⟩
-  have := step_covers version backoff s (.run false rnd) nd c hmem
+  have := step_covers (repaired version backoff) stopsOnAfChange_repaired s (.run false rnd) nd c hmem
   cases hi : s.items with
   | nil => rw [hi] at hb; simp at hb
   | cons t rest =>
